@@ -2,7 +2,7 @@ CONSTANTS
   GC = FALSE
   Broken = "none"
   MaxLen = 3
-  Family = "syntax"
+  Family = "files"
   SharedFiles = FALSE
   SharedSyntax = FALSE
 SPECIFICATION Spec
